@@ -16,7 +16,7 @@
    below).  The date theorems are therefore stated for the explicit formats.
 
    Finite-domain facts proved by computation: threshold_is_4_vs_5 and the Examples. *)
-From Coq Require Import List ZArith QArith Bool String Permutation.
+From Coq Require Import List ZArith QArith Bool String Ascii Permutation.
 From PF Require Import Gen.Tables Model.Infer Proofs.InferProofs.
 Import ListNotations.
 Close Scope Q_scope.
@@ -101,6 +101,40 @@ Theorem strings_by_counts : forall col,
                   else st_text_embedded)).
 Proof. exact table_string. Qed.
 Print Assumptions strings_by_counts.
+
+(* 6b. the multicategorical test of 6 without value_counts / explode: some separator of
+       possible_seps yields at least one token, and EVERY token occurs in more than
+       cat_min_count_thresh ROWS (a token repeated inside one row counts once).
+       multicat_spec / rows_with_token are the specification-level definitions of
+       Model/Infer.v; the harness evaluates string_table_spec on every string column. *)
+Theorem multicategorical_test_in_plain_terms : forall ser,
+  above_thresh (max_min_count ser) = multicat_spec ser.
+Proof. exact multicat_test_is_spec. Qed.
+Print Assumptions multicategorical_test_in_plain_terms.
+
+Theorem multicat_spec_meaning : forall ser,
+  multicat_spec ser = true <->
+  exists sep c, In sep possible_seps /\ sep_char sep = Some c /\
+    (exists tok, In tok (flat_map (fun x => row_tokens c (cell_string x)) ser)) /\
+    (forall tok, In tok (flat_map (fun x => row_tokens c (cell_string x)) ser) ->
+                 above_thresh (rows_with_token c tok ser) = true).
+Proof. exact multicat_spec_iff. Qed.
+Print Assumptions multicat_spec_meaning.
+
+(* the multiplicity value_counts sees after explode IS the number of rows containing the token *)
+Theorem exploded_token_count_is_row_count : forall c tok ser,
+  count_by String.eqb tok (flat_map (fun x => row_tokens c (cell_string x)) ser) = rows_with_token c tok ser.
+Proof. exact token_count_is_row_count. Qed.
+Print Assumptions exploded_token_count_is_row_count.
+
+Theorem strings_by_spec : forall col,
+  column_of is_strlike col -> existsb str_cell col = true ->
+  infer_series_stype col = Inferred (Some (string_table_spec (dropna col))).
+Proof.
+  intros col H S. rewrite (table_string col H S). unfold string_table_spec.
+  now rewrite multicat_test_is_spec.
+Qed.
+Print Assumptions strings_by_spec.
 
 (* 7. numeric lists: embedding iff all lists have one length and only finite floats,
       otherwise numerical sequence *)
@@ -320,3 +354,11 @@ Example mixed_iso_formats_not_timestamp :
   infer_series_stype [iso "2020-01-02"; DateStr "%Y/%m/%d" ["%Y/%m/%d"] "2020/01/03"] = Inferred (Some st_text_embedded) /\
   infer_series_stype [DateStr "%Y/%m/%d" ["%Y/%m/%d"] "2020/01/03"; iso "2020-01-02"] = Inferred (Some st_text_embedded).
 Proof. split; vm_compute; reflexivity. Qed.
+
+(* 6b on the boundary witnesses: "a" occurs in 5 rows of mc5 and in 4 rows of its tail; "c"
+   occurs twice in the last row and is counted once there *)
+Example rows_with_token_example :
+  rows_with_token "|"%char "a" (dropna mc5) = 5 /\ rows_with_token "|"%char "a" (dropna (tl mc5)) = 4 /\
+  rows_with_token "|"%char "c" [Str "c | c"] = 1 /\
+  multicat_spec (dropna mc5) = true /\ multicat_spec (dropna (tl mc5)) = false.
+Proof. repeat split; vm_compute; reflexivity. Qed.
